@@ -2216,7 +2216,11 @@ fn generate_expression(
                     "CANDIDATE_PROCEDURAL_PRIMITIVE" => {
                         ast::Expression::Literal(ast::Literal::IntUnsigned32(1))
                     }
-                    name => panic!("Unimplemented global intrinsic: {}", name),
+                    // The ray flags are plain constants
+                    name => match def.constexpr_value.clone() {
+                        Some(value) => generate_literal(&value, context)?,
+                        None => panic!("Unimplemented global intrinsic: {}", name),
+                    },
                 }
             } else {
                 match context.global_variable_modes.get(v) {
